@@ -45,6 +45,8 @@ def exc_name(e):
 
 
 class Outcome:
+    cut = False
+
     def __init__(self, value=None, exc=None):
         self.value, self.exc = value, exc
 
@@ -226,7 +228,7 @@ class ConcE:
 
     method_body = method
 
-    def attempt(self, thunk):
+    def attempt(self, thunk, allow_cut=False):
         try:
             return Outcome(value=thunk())
         except ConcRaised as r:
@@ -261,6 +263,29 @@ class ConcE:
 
     def opaque(self, what, **info):
         return info.get('concrete', object())
+
+    def check_args(self, qual, args, kw):
+        import inspect
+        f = self.func(qual)
+        try:
+            inspect.signature(f).bind(None, *args, **kw)
+        except TypeError as e:
+            raise ConcRaised('TypeError', e)
+
+    def stub(self, what, methods=None, attrs=None, awaitable=()):
+        ns = {}
+        for k, fn in (methods or {}).items():
+            if k in awaitable:
+                async def co(self_, *a, fn=fn, **kw):
+                    return fn(*a, **kw)
+                ns[k] = co
+                continue
+            ns[k] = (lambda self_, *a, fn=fn, **kw: fn(*a, **kw))
+        cls = type('Stub_' + what, (object,), ns)
+        o = cls()
+        for k, v in (attrs or {}).items():
+            setattr(o, k, v)
+        return o
 
     def fold(self, name, data, init, step, lo=None, hi=None, additive=False):
         acc = init
